@@ -1176,7 +1176,12 @@ namespace fixedmath
   inline fixed_t sin_angle_aprox(int32_t angle) noexcept
     {
     if(fixed_unlikely(angle < 0 || angle > 360) )
+      {
       angle = angle % 360;
+      //remainder has the sign of the dividend
+      if( angle < 0 )
+        angle += 360;
+      }
     return sin_angle_tab(angle);
     }
 
@@ -1188,7 +1193,12 @@ namespace fixedmath
   inline fixed_t cos_angle_aprox(int32_t angle) noexcept
     {
     if( fixed_unlikely( angle < 0 || angle > 360) )
+      {
       angle = angle % 360;
+      //remainder has the sign of the dividend
+      if( angle < 0 )
+        angle += 360;
+      }
     return cos_angle_tab(angle);
     }
     
